@@ -2,7 +2,7 @@ import PhyModel.Proofs.StoreCache_Path
 import PhyModel.Proofs.StoreCache_Map
 /-! C06, `Tree.get_subtree`: the extracted subtree is renumbered and fully recomputed (`updAll`), so
 only the `p`-part of the source is used. -/
-namespace PhyModel.Store
+namespace PhyModel.Store.C06
 open PhyModel
 
 theorem POK_findSub (dt : Data) (i : Nat) : ∀ (f : SF) (n : NodeRec) (k : SF), POK dt f →
@@ -35,4 +35,4 @@ theorem cacheOK_getSub (dt : Data) (s s' : Store) (root : Option Int) (hc : Cach
       (POK_of_er_eq dt (er_reindex _ 1)).2 hp1
     exact ⟨cacheOKsf_updAll dt _ hp2, fun _ => rfl⟩
 
-end PhyModel.Store
+end PhyModel.Store.C06
